@@ -314,6 +314,18 @@ func c08Scenario(pattern string, jitter float64, jname string) vx.Scenario {
 					w.lists = append(w.lists, listReply{kind: "503empty"})
 				} else if c == 'U' {
 					w.lists = append(w.lists, listReply{kind: "401empty"})
+				} else if c == 'T' {
+					w.lists = append(w.lists, listReply{kind: "timeout", delay: 20 * time.Millisecond})
+				} else if c == 'R' {
+					w.lists = append(w.lists, listReply{kind: "refused"})
+				} else if c == 'O' {
+					w.lists = append(w.lists, listReply{kind: "eof"})
+				} else if c == 's' {
+					// a long poll that returns nothing after a while
+					w.lists = append(w.lists, listReply{ids: []string{}, delay: 1400 * time.Millisecond})
+				} else if c == 'f' {
+					// a failure that takes its time
+					w.lists = append(w.lists, listReply{kind: "err", delay: 700 * time.Millisecond})
 				} else {
 					w.lists = append(w.lists, listReply{ids: []string{}})
 				}
@@ -333,8 +345,12 @@ func c08Scenario(pattern string, jitter float64, jname string) vx.Scenario {
 				var gaps []string
 				for i := 0; i+1 < len(w.listTimes) && i < len(pattern); i++ {
 					gap := w.listTimes[i+1] - w.listTimes[i]
+					if i < len(w.listEnds) && w.listEnds[i] > 0 {
+						// the delay is what passes between the answer and the next call
+						gap = w.listTimes[i+1] - w.listEnds[i]
+					}
 					gaps = append(gaps, gap.String())
-					if pattern[i] == 'S' {
+					if pattern[i] == 'S' || pattern[i] == 's' {
 						consecutive = 0
 						continue
 					}
@@ -399,6 +415,30 @@ func c08Scenarios(th bool) []vx.Scenario {
 					out = append(out, c08Scenario(sb.String(), jit[jn], jn))
 				}
 			}
+		}
+		// failures by error type (timeout, refused, unexpected EOF) and answers that take their time
+		if jn == "mid" || th {
+			kinds := "TROsfFS"
+			l := 3
+			if th {
+				l = 4
+			}
+			total := 1
+			for i := 0; i < l; i++ {
+				total *= len(kinds)
+			}
+			for m := 0; m < total; m++ {
+				var sb strings.Builder
+				x := m
+				for b := 0; b < l; b++ {
+					sb.WriteByte(kinds[x%len(kinds)])
+					x /= len(kinds)
+				}
+				if strings.ContainsAny(sb.String(), "TROsf") {
+					out = append(out, c08Scenario(sb.String()+"FF", jit[jn], jn))
+				}
+			}
+			out = append(out, c08Scenario("ssFFFFFFFFFFFFSsFFF", jit[jn], jn), c08Scenario(strings.Repeat("T", 14)+"S"+"TT", jit[jn], jn))
 		}
 		// long runs: reach and stay at the cap, recover, fail again; 5xx answers count as failures too
 		out = append(out, c08Scenario(strings.Repeat("F", 22)+"S"+"FFF", jit[jn], jn))
